@@ -17,8 +17,9 @@ from mc.report import Report
 def build_cases(tier):
     singles = {"node": 1, "u": 1, "user": 1, "named": 1, "nodes": 1, "ul": 1, "userReq": 1, "aliased_top": 1}
     ops = list(corpus.enumerate_ops(singles, rich=True, validate_ops=False)) + corpus.w_ops()
-    if tier != "quick":
-        ops += [o for o in corpus.enumerate_ops({"node": 2, "u": 2, "user": 2}, rich=False, validate_ops=False) if "k2" in o.tags]
+    # two selection items side by side (inline fragment next to a spread, two spreads, ...): abstract positions in the quick tier, all in thorough
+    pairs = {"node": 2, "u": 2} if tier == "quick" else {"node": 2, "u": 2, "user": 2}
+    ops += [o for o in corpus.enumerate_ops(pairs, rich=False, validate_ops=False) if "k2" in o.tags]
     return ops
 
 
